@@ -147,4 +147,175 @@ example : gt 3 200 (halfRing 8) = true ∧ lt 3 200 (halfRing 8) = false := by d
 example : (0:Int) - 128 = halfRing 8 ∨ (128:Int) - 0 = halfRing 8 := by decide
 example : add 250 100 (maxAdd 8) (modulo 8) = some 94 ∧ gt 94 250 (halfRing 8) = true := by decide
 
+/-! ### Histories: several objects, operations in any order (model: `step` / `run`)
+
+The statement quantifies over values; these theorems lift it to every HISTORY: whatever
+objects exist and whatever operations ran before, an operation between two objects of one
+width gives the answer of the pair theorems above, and no operation changes an object. -/
+
+/-- One operation only appends (at most) one slot: existing objects are never changed or removed. -/
+theorem step_prefix (objs : List Slot) (op : Op) : objs <+: (step objs op).2 := by
+  unfold step
+  split <;> split <;> (try split) <;> (try split) <;>
+    first | exact List.prefix_refl _ | exact List.prefix_append _ _
+
+theorem run_frozen (objs : List Slot) (ops : List Op) : objs <+: (run objs ops).2 := by
+  induction ops generalizing objs with
+  | nil => exact List.prefix_refl _
+  | cons op ops ih =>
+    simp only [run]
+    exact List.IsPrefix.trans (step_prefix objs op) (ih _)
+
+/-- An object that exists keeps its number and width through any program. -/
+theorem run_slot_frozen (objs : List Slot) (ops : List Op) (k : Nat) (hk : k < objs.length) :
+    slotAt (run objs ops).2 k = slotAt objs k := by
+  obtain ⟨t, ht⟩ := run_frozen objs ops
+  rw [← ht]
+  simp [slotAt, List.getElem?_append_left hk]
+
+/-- The answer to the operation at position `pre.length` of a program is the answer of that
+operation on the slots left by the operations before it. -/
+theorem run_nth (objs : List Slot) (pre : List Op) (op : Op) (post : List Op) :
+    (run objs (pre ++ op :: post)).1[pre.length]? = some (step (run objs pre).2 op).1 := by
+  induction pre generalizing objs with
+  | nil => simp [run]
+  | cons p pre ih =>
+    simp only [List.cons_append, run, List.length_cons, List.getElem?_cons_succ]
+    exact ih _
+
+/-- Comparison between two objects of one width: the pair function, whatever the other slots hold. -/
+theorem step_cmp (objs : List Slot) (op : Op) (a b : Int) (w : Nat)
+    (hx : slotAt objs op.i = some (a, w)) (hy : slotAt objs op.j = some (b, w))
+    (hk : op.kind ≠ .add ∧ op.kind ≠ .iadd) :
+    step objs op = (.bool (cmpK op.kind a b (halfRing w)), objs) := by
+  unfold step
+  rw [hx, hy]
+  cases h : op.kind <;> simp_all [cmpK]
+
+/-- History independence of comparisons: a comparison between two objects constructed at the start
+(slots `i`, `j` of the initial objects, same width) answers the pair function of their constructed
+values, whatever operations `pre` ran before and whatever other objects exist. -/
+theorem run_cmp_history_independent (objs : List Slot) (pre : List Op) (op : Op) (post : List Op)
+    (a b : Int) (w : Nat) (hi : op.i < objs.length) (hj : op.j < objs.length)
+    (hx : slotAt objs op.i = some (a, w)) (hy : slotAt objs op.j = some (b, w))
+    (hk : op.kind ≠ .add ∧ op.kind ≠ .iadd) :
+    (run objs (pre ++ op :: post)).1[pre.length]? = some (.bool (cmpK op.kind a b (halfRing w))) := by
+  rw [run_nth, step_cmp _ op a b w (by rw [run_slot_frozen _ _ _ hi, hx])
+    (by rw [run_slot_frozen _ _ _ hj, hy]) hk]
+
+/-- Addition (`s + n` or `s += n`) between two objects of one width, `0 < n ≤ maxAdd`: a NEW object of the
+same width holding `(s + n) mod 2^bits` is appended, and it compares greater than (not less than, not
+equal to) the left operand. -/
+theorem step_add_ok (objs : List Slot) (op : Op) (a n : Int) (w : Nat) (hw : 1 ≤ w)
+    (hx : slotAt objs op.i = some (a, w)) (hy : slotAt objs op.j = some (n, w))
+    (hk : op.kind = .add ∨ op.kind = .iadd)
+    (ha : 0 ≤ a ∧ a < modulo w) (hn0 : 0 < n) (hn : n ≤ maxAdd w) :
+    step objs op = (.sum ((a + n) % 2 ^ w) w true false false, objs ++ [some ((a + n) % 2 ^ w, w)]) := by
+  obtain ⟨s', hs, hgt, _, hs0, hsM⟩ := add_gt w hw a n ha hn0 hn
+  have hs' : s' = (a + n) % 2 ^ w := by
+    have := add_mod w a n hn
+    rw [hs] at this; exact Option.some.inj this
+  have hmk : mk s' w = s' := by
+    unfold mk; exact Int.emod_eq_of_lt hs0 hsM
+  have hlt : lt s' a (halfRing w) = false := by
+    cases h : lt s' a (halfRing w)
+    · rfl
+    · exact absurd ⟨h, hgt⟩ (lt_gt_exclusive _ _ _)
+  have heq : eq s' a = false := by
+    cases h : eq s' a
+    · rfl
+    · have : a = s' := by simpa [eq] using h
+      subst this
+      have := (equal_only_eq a (halfRing w)).2.2
+      rw [this] at hgt; exact absurd hgt (by decide)
+  unfold step
+  rw [hx, hy]
+  rcases hk with hk | hk <;> simp [hk, hs, hmk, hgt, hlt, heq, ← hs']
+
+/-- Addition of `n > maxAdd` is refused (ArithmeticError) and leaves every object as it was. -/
+theorem step_add_refused (objs : List Slot) (op : Op) (a n : Int) (w : Nat)
+    (hx : slotAt objs op.i = some (a, w)) (hy : slotAt objs op.j = some (n, w))
+    (hk : op.kind = .add ∨ op.kind = .iadd) (hn : maxAdd w < n) :
+    step objs op = (.arith, objs ++ [none]) := by
+  have hs := add_refuses_large w a n hn
+  unfold step
+  rw [hx, hy]
+  rcases hk with hk | hk <;> simp [hk, hs]
+
+/-- Every object a program ever holds is in the ring of its width, if the initial ones are
+(constructor: `mk_range`). -/
+def InRing (s : Slot) : Prop := ∀ a w, s = some (a, w) → 0 ≤ a ∧ a < modulo w
+
+theorem step_inRing (objs : List Slot) (op : Op) (h : ∀ s ∈ objs, InRing s) :
+    ∀ s ∈ (step objs op).2, InRing s := by
+  unfold step
+  split <;> split <;> (try split) <;> (try split) <;>
+    simp only [List.mem_append, List.mem_singleton] <;>
+    (first
+      | exact h
+      | (rintro s (hs | rfl)
+         · exact h s hs
+         · intro a w hsw
+           first
+             | (cases hsw; exact mk_range _ _)
+             | cases hsw))
+
+theorem run_inRing (objs : List Slot) (ops : List Op) (h : ∀ s ∈ objs, InRing s) :
+    ∀ s ∈ (run objs ops).2, InRing s := by
+  induction ops generalizing objs with
+  | nil => exact h
+  | cons op ops ih =>
+    simp only [run]
+    exact ih _ (step_inRing objs op h)
+
+/-- History independence of additions: adding slot `j` to slot `i` (objects constructed at the start, one
+width, `0 < n ≤ maxAdd`) after ANY operations `pre` yields `(s + n) mod 2^bits`, greater than `s`. -/
+theorem run_add_history_independent (objs : List Slot) (pre : List Op) (op : Op) (post : List Op)
+    (a n : Int) (w : Nat) (hw : 1 ≤ w) (hi : op.i < objs.length) (hj : op.j < objs.length)
+    (hx : slotAt objs op.i = some (a, w)) (hy : slotAt objs op.j = some (n, w))
+    (hk : op.kind = .add ∨ op.kind = .iadd)
+    (ha : 0 ≤ a ∧ a < modulo w) (hn0 : 0 < n) (hn : n ≤ maxAdd w) :
+    (run objs (pre ++ op :: post)).1[pre.length]? = some (.sum ((a + n) % 2 ^ w) w true false false) := by
+  rw [run_nth, step_add_ok _ op a n w hw (by rw [run_slot_frozen _ _ _ hi, hx])
+    (by rw [run_slot_frozen _ _ _ hj, hy]) hk ha hn0 hn]
+
+/-- A chain of additions `s + n₁ + … + n_k` with every `n_i ≤ maxAdd` yields `(s + Σ n_i) mod 2^bits`
+(for `s` in the ring). -/
+theorem addMany_sum (bits : Nat) (a : Int) (ns : List Int) (ha : 0 ≤ a ∧ a < modulo bits)
+    (hns : ∀ n ∈ ns, n ≤ maxAdd bits) :
+    addMany a ns (maxAdd bits) (modulo bits) = some ((a + ns.sum) % 2 ^ bits) := by
+  have key : ∀ (ns : List Int) (a : Int), (∀ n ∈ ns, n ≤ maxAdd bits) →
+      addMany (a % 2 ^ bits) ns (maxAdd bits) (modulo bits) = some ((a + ns.sum) % 2 ^ bits) := by
+    intro ns
+    induction ns with
+    | nil => intro a _; simp [addMany]
+    | cons n ns ih =>
+      intro a h
+      have hn : n ≤ maxAdd bits := h n (by simp)
+      simp only [addMany, add_mod bits _ n hn, List.sum_cons]
+      rw [Int.emod_add_emod, ih (a + n) (fun m hm => h m (by simp [hm])), Int.add_assoc]
+  have : a % 2 ^ bits = a := Int.emod_eq_of_lt ha.1 (by simpa [modulo] using ha.2)
+  rw [← this, key ns a hns, this]
+
+/-- … and one addend above `maxAdd` anywhere in the chain makes the whole chain fail. -/
+theorem addMany_refused (bits : Nat) (a : Int) (ns₁ ns₂ : List Int) (n : Int)
+    (hn : maxAdd bits < n) :
+    addMany a (ns₁ ++ n :: ns₂) (maxAdd bits) (modulo bits) = none := by
+  induction ns₁ generalizing a with
+  | nil => simp [addMany, add_refuses_large bits a n hn]
+  | cons m ms ih =>
+    simp only [List.cons_append, addMany]
+    split
+    · exact ih _
+    · rfl
+
+/-! non-vacuity of the history theorems: a program over objects of two widths, a shared number,
+`+=`, an addition through a returned object, a refused addition -/
+example :
+    (run [some (250, 8), some (100, 8), some (250, 16), some (200, 8)]
+      [⟨.lt, 0, 2⟩, ⟨.eq, 0, 2⟩, ⟨.iadd, 0, 1⟩, ⟨.gt, 4, 0⟩, ⟨.add, 4, 3⟩, ⟨.add, 4, 1⟩, ⟨.le, 0, 6⟩]).1
+      = [.type, .bool false, .sum 94 8 true false false, .bool true, .arith,
+         .sum 194 8 true false false, .bool false] := by decide
+example : addMany 250 [100, 100, 0, 127] (maxAdd 8) (modulo 8) = some 65 := by decide
+
 end TwistedProps.C34
